@@ -23,7 +23,10 @@ PermStatusOK(n) ==
 ASSUME \A n \in 1..4 : PermStateOK(n)
 ASSUME \A n \in 1..4 : PermStatusOK(n)
 \* the shape table, for the YAML generator of the check (single source: the specification)
-ASSUME \A s \in DOMAIN Shapes : PrintT(<<"SHAPE", s, Shapes[s].parent, Shapes[s].kind, Shapes[s].crit>>)
+ASSUME \A s \in DOMAIN Shapes : PrintT(<<"SHAPE", s, Shapes[s].parent, Shapes[s].kind, Shapes[s].crit, Shapes[s].src>>)
+\* ... and the templates with disabled roles the pruned ones are loaded from
+ASSUME \A s \in DOMAIN Sources :
+         PrintT(<<"SOURCE", s, Sources[s].parent, Sources[s].kind, Sources[s].crit, Sources[s].en>>)
 ASSUME PrintT(<<"ALGEBRA", Cardinality(States), Cardinality(Statuses),
                 Cardinality([1..4 -> States]) * Cardinality(Perms(4)),
                 Cardinality([1..4 -> Statuses]) * Cardinality(Perms(4))>>)
